@@ -126,6 +126,27 @@ theorem c12_ts_taylor_half_of_taylor_apex (ll a b : F) (hb : b < 0) :
     have : b * (x + a / b) ^ 2 ≤ 0 := mul_nonpos_of_nonpos_of_nonneg (le_of_lt hb) (sq_nonneg _)
     linarith
 
+/-- **the call reads the parameter that is *named* `ns_param_name`** — wherever it sits among the fit
+parameters and whatever the other parameters are called or worth; an unknown name is a `KeyError` -/
+theorem c12_ts_call (names : List String) (name : String) (fp : List F) (ll : F)
+    (hlen : fp.length = names.length) :
+    (name ∉ names → tsCall names name fp ll = .error .keyError) ∧
+      (∀ i (hi : i < names.length), names[i] = name → (∀ j (hj : j < i), names[j]'(by omega) ≠ name) →
+        tsCall names name fp ll = .ok (ts (fp[i]'(by omega)) ll)) := by
+  constructor
+  · intro h
+    have : names.findIdx? (· == name) = none := by
+      rw [List.findIdx?_eq_none_iff]; intro x hx; simp; intro hc; exact h (hc ▸ hx)
+    simp [tsCall, gflpIdx, this]
+  · intro i hi hname hfirst
+    have : names.findIdx? (· == name) = some i := by
+      rw [List.findIdx?_eq_some_iff_getElem]
+      refine ⟨hi, by simp [hname], ?_⟩
+      intro j hj
+      simpa using hfirst j hj
+    have hfp : fp[i]? = some (fp[i]'(by omega)) := List.getElem?_eq_getElem (by omega)
+    simp [tsCall, gflpIdx, this, hfp]
+
 end ts
 
 example : ts (0 : ℚ) 3 = 6 ∧ ts (-2 : ℚ) 3 = -6 ∧ ts (5 : ℚ) 3 = 6 := by
@@ -552,6 +573,16 @@ theorem c12_ts_taylor_computable_multi (parts : List C12.Part) (ll : ℝ)
   · exact c12_ts_taylor_nonneg ll _ _ hneg
   · rw [ha, hb]; exact ⟨0, c12_ts_taylor_flat ll, le_refl _⟩
 
+/-- **computability on the object, one dataset**: for every single-dataset LLH-ratio object, whatever it
+evaluated before, with at least one event, the Taylor statistic at a fit result with `ns = 0` returns a
+non-negative value (`N′ ≤ N` needs no hypothesis: the code computes `N = N′ + n_pure_bkg`) -/
+theorem c12_ts_taylor_single_computable_on_object (st : LlhSt ℝ) (opa : ℝ) (hopa : opa < 1) (nSel nPure : ℕ)
+    (Xs : List ℝ) (hN : 0 < nSel + nPure) :
+    ∃ v, (tsTaylorOnCode st opa nSel nPure Xs).2 = .ok (some v) ∧ 0 ≤ v := by
+  rw [c12_ts_taylor_on_code st opa hopa, c12_ts_taylor_history_independent st (nSel + nPure) nSel Xs 0]
+  obtain ⟨v, hv, hv0, _⟩ := c12_ts_taylor_computable (nSel + nPure) nSel Xs 0 hN (Nat.le_add_right _ _)
+  exact ⟨v, by rw [hv], hv0⟩
+
 /-! ### the multi-dataset and the ns-profile object -/
 
 /-- what child `j` answers right after the multi-dataset `evaluate` at `ns` -/
@@ -652,6 +683,103 @@ theorem c12_ts_taylor_prof (st : ProfSt ℝ) (opa ns0 : ℝ) (fs : List ℝ) (ds
       simp [MultiSt.evaluate, MultiSt.newTrial, List.length_zipWith, List.length_zip, hk, hf]
     simp [tsTaylorOnProf, ProfSt.newTrial, ProfSt.evaluate, ProfSt.grad2,
       c12_multi_grad2_after_evaluate _ opa 0 fs ds hk' hf]
+
+/-- the datasets of an object as the `Part`s of the analytic theorems -/
+noncomputable def C12.partsOf (ds : List (DsIn ℝ)) (fs : List ℝ) : List C12.Part :=
+  List.zipWith (fun d f => { N := d.nSel + d.nPure, nSel := d.nSel, Xs := d.Xs, f := f }) ds fs
+
+theorem C12.partsOf_a (opa : ℝ) (hopa : opa < 1) : ∀ (ds : List (DsIn ℝ)) (fs : List ℝ),
+    List.zipWith (fun (d : DsIn ℝ) f => nsGradCode opa (d.nSel + d.nPure) d.nSel (0 * f) d.Xs * f) ds fs
+      = (C12.partsOf ds fs).map (fun p => p.f * nsGrad p.N p.nSel 0 p.Xs) := by
+  intro ds
+  induction ds with
+  | nil => intro fs; simp [C12.partsOf]
+  | cons d ds ih =>
+    intro fs
+    cases fs with
+    | nil => simp [C12.partsOf]
+    | cons f fs =>
+      have := ih fs
+      simp only [C12.partsOf] at this ⊢
+      simp only [List.zipWith_cons_cons, List.map_cons, this]
+      rw [zero_mul, (C12.code_at_zero opa hopa (d.nSel + d.nPure) d.nSel d.Xs).2, mul_comm]
+
+theorem C12.partsOf_b (opa : ℝ) (hopa : opa < 1) : ∀ (ds : List (DsIn ℝ)) (fs : List ℝ),
+    List.zipWith (C12.kidG2 opa 0) ds fs = (C12.partsOf ds fs).map (fun p => nsGrad2 p.N p.nSel 0 p.Xs) := by
+  have hid : ∀ Xs : List ℝ, Xs.map (nsGradI (0 : ℝ)) = Xs := fun Xs => by
+    have : nsGradI (0 : ℝ) = id := by funext X; simp [nsGradI]
+    rw [this, List.map_id]
+  intro ds
+  induction ds with
+  | nil => intro fs; simp [C12.partsOf]
+  | cons d ds ih =>
+    intro fs
+    cases fs with
+    | nil => simp [C12.partsOf]
+    | cons f fs =>
+      have := ih fs
+      simp only [C12.partsOf] at this ⊢
+      simp only [List.zipWith_cons_cons, List.map_cons, this]
+      unfold C12.kidG2
+      rw [zero_mul, (C12.code_at_zero opa hopa (d.nSel + d.nPure) d.nSel d.Xs).1, hid]
+
+theorem C12.partsOf_f : ∀ (ds : List (DsIn ℝ)) (fs : List ℝ), fs.length = ds.length →
+    (C12.partsOf ds fs).map (fun p => p.f) = fs := by
+  intro ds
+  induction ds with
+  | nil => intro fs h; have : fs = [] := List.length_eq_zero_iff.mp h; simp [C12.partsOf, this]
+  | cons d ds ih =>
+    intro fs h
+    cases fs with
+    | nil => simp at h
+    | cons f fs =>
+      simp only [List.length_cons, Nat.add_right_cancel_iff] at h
+      have := ih fs h
+      simp only [C12.partsOf] at this ⊢
+      simp [this]
+
+theorem C12.partsOf_mem : ∀ (ds : List (DsIn ℝ)) (fs : List ℝ) (p : C12.Part), p ∈ C12.partsOf ds fs →
+    ∃ d ∈ ds, p.N = d.nSel + d.nPure ∧ p.nSel = d.nSel := by
+  intro ds
+  induction ds with
+  | nil => intro fs p hp; simp [C12.partsOf] at hp
+  | cons d ds ih =>
+    intro fs p hp
+    cases fs with
+    | nil => simp [C12.partsOf] at hp
+    | cons f fs =>
+      simp only [C12.partsOf, List.zipWith_cons_cons, List.mem_cons] at hp
+      rcases hp with rfl | hp
+      · exact ⟨d, by simp, rfl, rfl⟩
+      · obtain ⟨d', hd', h⟩ := ih fs p hp
+        exact ⟨d', List.mem_cons_of_mem _ hd', h⟩
+
+/-- **computability on the object, several datasets**: for every multi-dataset LLH-ratio object — whatever
+it evaluated before — with at least one event per dataset, the Taylor statistic at a fit result with
+`ns = 0` returns a non-negative value (no error, no NaN/inf) -/
+theorem c12_ts_taylor_multi_computable_on_object (st : MultiSt ℝ) (opa : ℝ) (hopa : opa < 1) (fs : List ℝ)
+    (ds : List (DsIn ℝ)) (hk : st.kids.length = ds.length) (hf : fs.length = ds.length)
+    (hN : ∀ d ∈ ds, 0 < d.nSel + d.nPure) :
+    ∃ v, (tsTaylorOnMulti st opa fs ds).2 = .ok (some v) ∧ 0 ≤ v := by
+  rw [c12_ts_taylor_multi_history_independent st opa fs ds hk hf]
+  have hz : isZero (0 : ℝ) = true := (C12.isZero_iff 0).mpr rfl
+  have ha : multiNsGrad opa 0 fs ds
+      = sumF ((C12.partsOf ds fs).map (fun p => p.f * nsGrad p.N p.nSel 0 p.Xs)) := by
+    unfold multiNsGrad
+    rw [← List.sum_eq_foldl, C12.sumF_eq_sum, C12.partsOf_a opa hopa ds fs]
+  have hb : nsGrad2Multi (List.zipWith (C12.kidG2 opa 0) ds fs) fs
+      = nsGrad2Multi ((C12.partsOf ds fs).map (fun p => nsGrad2 p.N p.nSel 0 p.Xs))
+          ((C12.partsOf ds fs).map (fun p => p.f)) := by
+    rw [C12.partsOf_b opa hopa ds fs, C12.partsOf_f ds fs hf]
+  have hparts : ∀ p ∈ C12.partsOf ds fs, 0 < p.N ∧ p.nSel ≤ p.N := by
+    intro p hp
+    obtain ⟨d, hd, h1, h2⟩ := C12.partsOf_mem ds fs p hp
+    rw [h1, h2]
+    exact ⟨hN d hd, Nat.le_add_right _ _⟩
+  obtain ⟨v, hv, hv0⟩ := c12_ts_taylor_computable_multi (C12.partsOf ds fs) 0 hparts
+  rw [ha, hb]
+  simp only [tsTaylor, hz, if_true] at hv
+  exact ⟨v, by rw [hv], hv0⟩
 
 end deriv
 
